@@ -69,9 +69,11 @@ def _threads(tier, variant, reprod_array):
     return [1, 2] if variant == "omp2r" and reprod_array else [2]
 
 
-def build_case(cap, margs, info_by_style, g, dm, ann, variant, style, lay, tier):
+def build_case(cap, margs, info_by_style, g, dm, ann, variant, style, lay, tier,
+               label=None):
     '''One case record for LFRicBuiltins.tla, or raises Unsupported.'''
     info, actual, alg = info_by_style[style]
+    label = label or cap
     text, iname, kern = G.make_psy(info, dm, ann, variant)
     it = G.itemise(text, iname)
     undf = G.LAYOUT_UNDF[lay]
@@ -98,7 +100,7 @@ def build_case(cap, margs, info_by_style, g, dm, ann, variant, style, lay, tier)
                 if red:
                     raise Unsupported("two intent(out) scalars")
                 red = n
-        cid = "%s|dm%d|ann%d|%s|%s|lay%d" % (cap, dm, ann, variant, style, lay)
+        cid = "%s|dm%d|ann%d|%s|%s|lay%d" % (label, dm, ann, variant, style, lay)
         if len(threads_cases) > 1:
             cid += "|T%d" % thr[0]
         out.append({
@@ -115,15 +117,96 @@ def build_case(cap, margs, info_by_style, g, dm, ann, variant, style, lay, tier)
     return out
 
 
+def test_dir():
+    '''The repository's algorithm files are inputs: a scratch copy made
+    without its tests (PV_REPO) uses those of /repo.'''
+    for root in (core.REPO, "/repo"):
+        path = os.path.join(root, "src", "psyclone", "tests", "test_files", "dynamo0p3")
+        if os.path.isdir(path):
+            return path
+    raise core.MachineryError("LFRic test algorithm files not found")
+
+
+def repo_files():
+    return sorted(f for f in os.listdir(test_dir())
+                  if f.startswith("15.") and f.endswith(".f90"))
+
+
+def _file_configs(tier):
+    variants = ("plain",) if tier == "quick" else G.VARIANTS
+    return [(dm, ann, v, "file", 1) for dm in (0, 1) for ann in (0, 1) for v in variants]
+
+
+def _build_file(fname, tier, table):
+    '''Cases of one of the repository's one-built-in algorithm files.'''
+    import re
+    from psyclone.parse.algorithm import parse
+    from psyclone.psyGen import PSyFactory
+    from psyclone.domain.lfric import LFRicKern
+    from psyclone.domain.lfric.lfric_builtins import LFRicBuiltIn
+    res = {"builtin": "file:" + fname, "cases": [], "unsupported": [], "nodoc": False,
+           "skipped": None}
+    try:
+        _, info = parse(os.path.join(test_dir(), fname), api="dynamo0.3")
+        psy = PSyFactory("dynamo0.3", distributed_memory=False).create(info)
+    except Exception as err:    # noqa - negative test inputs of the repository
+        res["skipped"] = "not accepted by PSyclone: " + type(err).__name__
+        return res
+    invokes = psy.invokes.invoke_list
+    kerns = invokes[0].schedule.walk(LFRicBuiltIn) if invokes else []
+    if len(invokes) != 1 or len(kerns) != 1 or invokes[0].schedule.walk(LFRicKern):
+        res["skipped"] = "not a single invoke of a single built-in"
+        return res
+    kern = kerns[0]
+    cap = next((c for c in table if c.lower() == kern.name.lower()), None)
+    g = _GUIDE.get(kern.name.lower())
+    if cap is None or g is None:
+        res["nodoc"] = True
+        return res
+    margs = table[cap]
+    try:
+        actual = []
+        if len(kern.arguments.args) != len(margs):
+            raise Unsupported("argument count differs from the metadata")
+        for arg, (kind, ty, _) in zip(kern.arguments.args, margs):
+            if arg.is_literal:
+                try:
+                    lit = D.parse_expr(arg.name)
+                except D.DocError as err:
+                    raise Unsupported("literal argument: " + str(err))
+                actual.append({"kind": "scalar", "ty": ty, "lit": lit})
+            elif arg.form == "variable" and re.fullmatch(r"[A-Za-z]\w*", arg.text or ""):
+                actual.append({"kind": kind, "ty": ty, "name": arg.name.lower()})
+            else:
+                raise Unsupported("actual argument " + str(arg.text))
+        with open(os.path.join(test_dir(), fname)) as f:
+            alg = "".join(l for l in f if not l.lstrip().startswith("!"))
+    except Unsupported as err:
+        res["unsupported"].append(("file:" + fname, str(err)))
+        return res
+    info_by_style = {"file": (info, actual, alg)}
+    for dm, ann, variant, style, lay in _file_configs(tier):
+        try:
+            res["cases"] += build_case(cap, margs, info_by_style, g, dm, ann, variant,
+                                       style, lay, tier, label="file:" + fname)
+        except Unsupported as err:
+            res["unsupported"].append(
+                ("file:%s|dm%d|ann%d|%s" % (fname, dm, ann, variant), str(err)))
+    return res
+
+
 def _build(job):
-    '''All cases of one built-in.'''
-    cap, margs, tier = job
+    '''All cases of one built-in (generated algorithm files) or of one of
+    the repository's algorithm files.'''
+    kind, cap, margs, tier = job
     core.setup_psyclone_env()
     from psyclone.parse.algorithm import parse
     global _GUIDE
     if _GUIDE is None:
         _GUIDE = D.parse_guide()
-    res = {"builtin": cap, "cases": [], "unsupported": [], "nodoc": False}
+    if kind == "file":
+        return _build_file(cap, tier, margs)
+    res = {"builtin": cap, "cases": [], "unsupported": [], "nodoc": False, "skipped": None}
     g = _GUIDE.get(cap.lower())
     if g is None:
         res["nodoc"] = True
@@ -218,6 +301,31 @@ def verdict_line(rec):
                w["hi"], w["val"], w["fm"], w["threads"]))
 
 
+def signature_disagreements(guide, table):
+    '''Cross-check of the guide's heading with the built-in's metadata: same
+    number of arguments, the bold ones are exactly the modified ones, names
+    say field/scalar and real/integer as the metadata does.  Recorded in the
+    evidence (the clauses judge what is computed, not how it is typeset).'''
+    res = []
+    for cap, margs in table:
+        g = guide.get(cap.lower())
+        if g is None:
+            continue
+        if g["name"] != cap:
+            res.append("%s: heading spells it %s" % (cap, g["name"]))
+        if len(g["args"]) != len(margs):
+            res.append("%s: %d documented arguments, %d in the metadata"
+                       % (cap, len(g["args"]), len(margs)))
+            continue
+        for (dn, bold), (kind, ty, acc) in zip(g["args"], margs):
+            if bold != (acc in ("gh_write", "gh_readwrite", "gh_sum", "gh_inc")):
+                res.append("%s: %s is %sbold but has access %s"
+                           % (cap, dn, "" if bold else "not ", acc))
+            if ("field" in dn) != (kind == "field"):
+                res.append("%s: %s is a %s in the metadata" % (cap, dn, kind))
+    return res
+
+
 # --------------------------------------------------------------------- run
 def run(tier):
     core.setup_psyclone_env()
@@ -227,10 +335,16 @@ def run(tier):
     only = os.environ.get("PV_C20_ONLY")       # development aid: a,b,c = these built-ins only
     if only:
         table = [t for t in table if t[0].lower() in only.lower().split(",")]
-    results = core.pool_map(_build, [(cap, margs, tier) for cap, margs in table],
-                            procs=_W, chunksize=1)
+    import time
+    t0 = time.time()
+    jobs = [("gen", cap, margs, tier) for cap, margs in table]
+    if not only:
+        jobs += [("file", f, dict(table), tier) for f in repo_files()]
+    results = core.pool_map(_build, jobs, procs=_W, chunksize=1)
+    t_build = time.time() - t0
     names = {cap.lower() for cap, _ in G.builtin_table()}
     undocumented = sorted(r["builtin"] for r in results if r["nodoc"])
+    skipped = {r["builtin"]: r["skipped"] for r in results if r.get("skipped")}
     doc_only = sorted(set(guide) - names)
     built, unsupported = [], []
     for r in results:
@@ -256,7 +370,9 @@ def run(tier):
         key = core.chash({k: v for k, v in c.items() if k != "id"})
         rep = reps.setdefault(key, c)
         same.setdefault(rep["id"], []).append(c["id"])
+    t0 = time.time()
     states, trans, fails_r, discards_r = run_tlc(list(reps.values()), workers=_W)
+    t_tlc = time.time() - t0
     fails, discards = {}, {}
     for rid, ids in same.items():
         for i in ids:
@@ -277,7 +393,8 @@ def run(tier):
             empty.append(c["id"])
         if c["id"] in fails:
             pv["failing"] += 1
-    if empty:
+    # a generated case without a single defined input would pass vacuously
+    if [i for i in empty if not i.startswith("file:")]:
         raise core.MachineryError("the definition is undefined on every input of %s" % empty[:3])
     nprinted = 0
     for cid, recs in sorted(fails.items()):
@@ -310,6 +427,11 @@ def run(tier):
                     "field fill x thread count; non-trivial = the documented definition "
                     "is defined on at least one input"),
            "builtins": len(table), "documented_builtins": len(guide),
+           "repository_algorithm_files": len([j for j in jobs if j[0] == "file"]),
+           "repository_files_skipped": skipped,
+           "vacuous_file_cases": empty,
+           "heading_vs_metadata_disagreements": signature_disagreements(guide, table),
+           "build_s": round(t_build, 1), "tlc_s": round(t_tlc, 1),
            "documented_but_not_in_BUILTIN_MAP": doc_only,
            "unsupported": len(unsupported),
            "unsupported_samples": unsupported[:5],
